@@ -159,7 +159,7 @@ mod proofs {
     prog = Program("hasher_x", "items DeterministicState, impl BuildHasher, type HashMap, type HashSet extracted by name from /repo/impl/src/utils.rs "
                    "(sha256 %s); everything else of that file is dropped" % sha[:16], prog_src, hs)
     return Family(
-        "C19", [prog], kani_flags=["-Z", "function-contracts"], unwind=12, level="proof",
+        "C19", [prog], kani_flags=["-Z", "function-contracts", "--no-assertion-reach-checks"], unwind=12, level="proof",
         functions_under_contract=[fn],
         trusted_base=["Kani's model of std::collections::hash_map::DefaultHasher (SipHash-1-3 executed bit-precisely)"],
         assumptions=["PARTIAL claim: only the hasher mechanism; every other way an expansion could depend on history / environment is not reachable",
